@@ -244,8 +244,9 @@ func (lex *Lexer) Token(typ TokenType, str string) Token {
 }
 
 var (
-	BoolRegex    = regexp.MustCompile("^(true|false)$")
-	Uint64Regex  = regexp.MustCompile("^(0x|0o)?[0-9a-fA-F]+ULL$")
+	BoolRegex = regexp.MustCompile("^(true|false)$")
+	// hex digits only after 0x (a bare FULL, DEADULL, ... is a symbol), octal digits after 0o
+	Uint64Regex  = regexp.MustCompile("^(0x[0-9a-fA-F]+|0o[0-7]+|[0-9]+)ULL$")
 	DecimalRegex = regexp.MustCompile("^-?[0-9][_0-9]*$") // allow underscores now, like go1.13
 	HexRegex     = regexp.MustCompile("^0x[0-9a-fA-F]+$")
 	OctRegex     = regexp.MustCompile("^0o[0-7]+$")
